@@ -8,7 +8,11 @@ B: the statement itself: ImageWriter.write_image decoded by an independent PNG
    reader and compared pixel for pixel with a reference renderer written from
    the Spectrum display rules (scale, crop, masks, flash frame).
 """
+import contextlib
 import io
+import os
+import shutil
+import tempfile
 import random
 import struct
 import time
@@ -355,6 +359,20 @@ def run(tier):
                         'bound': 'array shapes 1x1..3x3, 3 random fillings each, flip 0..3, rotate 0..4', 'evaluations': na})
     for b in bada[:3]:
         rep.violation('C15/arrays/%s=%s/%s' % (b[0], b[1], b[3]), '%s_udgs(udgs, %d) on a %dx%d array: %s grid differs from the reference transformation' % (b[0], b[1], b[2][0], b[2][1], b[3]), {'case': {'array_op': b[0], 'arg': b[1], 'shape': list(b[2])}})
+    nt = 160 if tier == 'quick' else 3000
+    pert = max(1, nt // (common.NCPU * 2))
+    with Pool(common.NCPU) as p:
+        rest = p.map(sna2img_tool_chunk, [(common.seed(), k, min(nt, k + pert)) for k in range(0, nt, pert)])
+    rep.bounded.append({'function': 'skoolkit.sna2img.main (run: crop by cells, -i, -f, -r, -s, -n, -p, -m on a SCR file)',
+                        'contract': 'the PNG decodes to the display rules applied to the requested cells after moves/pokes, inversion of flashing cells (graphic inverted, FLASH off, nothing else), flip, rotation and scale; a second frame only with animation',
+                        'bound': '%d generated (screen, options) pairs' % nt, 'evaluations': sum(r[0] for r in rest)})
+    seent = set()
+    for b in [b for r in rest for b in r[1]]:
+        key = 'C15/sna2img/%s' % b[0].split(' is ')[0].split(' (')[0][:40]
+        if key in seent or len(seent) >= 4:
+            continue
+        seent.add(key)
+        rep.violation(key, 'sna2img %s: %s' % (b[1], b[0]), {'case': {'sna2img_options': b[1], 'seed': common.seed()}, 'observed': b[0]})
     check_encoders(rep, tier)       # the clause "every specialised encoder agrees with the generic one", exhaustively on 1-2 tile frames
     nm, badm = macro_layer(common.seed(), 600 if tier == 'quick' else 6000)
     rep.bounded.append({'function': 'skoolkit.sna2img MACROS (skoolmacro.parse_udg / parse_udgarray / parse_font / parse_scr, graphics.build_udg / adjust_udgs / font_udgs / scr_udgs)',
@@ -402,6 +420,13 @@ def replay(path):
         if doc.get('no_failing_input_found'):
             print(doc.get('what'))
             print('VIOLATION property=C15 replay=%s no-failing-input-found' % path)
+            return 1
+        return 0
+    if isinstance(case, dict) and 'sna2img_options' in case:
+        n, bad = sna2img_tool_chunk((case.get('seed', common.seed()), 0, 3000))
+        print(bad[:2])
+        if bad:
+            print('VIOLATION property=C15 replay=%s' % path)
             return 1
         return 0
     if isinstance(case, dict) and 'encoder' in case:
@@ -790,6 +815,121 @@ def macro_layer(seed, n):
         except Exception as ex:      # noqa: a macro built from the documented forms must parse
             bad.append((kind, locals().get('text', ''), 'exception', repr(ex)[:160]))
     return ev, bad
+
+
+# ------------------------------------------------------------------ B: the sna2img tool (options -o -S -s -i -f -r -n -p -m on a SCR file)
+def _tiles_from_grid(g):
+    """Tile array (reference tiles) of a pixel grid of (bit, mask bit, attr) triples whose sides are multiples of 8."""
+    out = []
+    for ty in range(len(g) // 8):
+        row = []
+        for tx in range(len(g[0]) // 8):
+            data = [sum(g[ty * 8 + k][tx * 8 + x][0] << (7 - x) for x in range(8)) for k in range(8)]
+            row.append(_RefTile(g[ty * 8][tx * 8][2], data))
+        out.append(row)
+    return out
+
+
+def sna2img_tool_chunk(args):
+    """sna2img.main on a generated SCR file with generated options; the PNG is decoded with the independent reader and
+    compared with the display rules applied to the screen after the moves and pokes, the crop to the requested cells,
+    -i (flashing cells: graphic inverted, FLASH off, everything else kept), -f, -r and the scale."""
+    seed, k0, k1 = args
+    from skoolkit import sna2img
+    from skoolkit.image import ImageWriter
+    bad = []
+    n = 0
+    tmp = tempfile.mkdtemp(prefix='c15tool_')
+    try:
+        for k in range(k0, k1):
+            rnd = random.Random('%s/sna2img/%s' % (seed, k))
+            attrs_pool = [rnd.choice((0x47, 0xC7, 0x87, 0x38, 0xF8, 0x56, 0xD6, 0x07, rnd.randrange(256))) for _ in range(4)]
+            scr = [rnd.choice((0, 255, 0x0F, rnd.randrange(256))) for _ in range(6144)] + [rnd.choice(attrs_pool) for _ in range(768)]
+            mem = [0] * 16384 + scr + [0] * (65536 - 16384 - 6912)
+            x, y = rnd.randrange(32), rnd.randrange(24)
+            w, h = rnd.randrange(1, 5), rnd.randrange(1, 4)
+            scale = rnd.randrange(1, 4)
+            invert, anim = rnd.random() < 0.5, rnd.random() < 0.5
+            flip, rot = rnd.randrange(4), rnd.randrange(4)
+            opts = ['-o', '%d,%d' % (x, y), '-S', '%dx%d' % (w, h), '-s', str(scale)]
+            if invert:
+                opts.append('-i')
+            if not anim:
+                opts.append('-n')
+            if flip:
+                opts += ['-f', str(flip)]
+            if rot:
+                opts += ['-r', str(rot)]
+            if rnd.random() < 0.3:
+                src, size, dest = rnd.randrange(16384, 23000), rnd.randrange(1, 40), rnd.randrange(16384, 23000)
+                opts += ['-m', '%d,%d,%d' % (src, size, dest)]
+                mem[dest:dest + size] = mem[src:src + size]
+            if rnd.random() < 0.3:
+                # poke the attribute of the first cell shown
+                a, v = 22528 + 32 * y + x, rnd.choice((0xC7, 0xF8, 0x47))
+                opts += ['-p', '%d,%d' % (a, v)]
+                mem[a] = v
+            fn = os.path.join(tmp, 'x.scr')
+            out = os.path.join(tmp, 'x.png')
+            with open(fn, 'wb') as f:
+                f.write(bytes(scr))
+            desc = ' '.join(opts)
+            try:
+                with contextlib.redirect_stdout(io.StringIO()), contextlib.redirect_stderr(io.StringIO()):
+                    sna2img.main(opts + [fn, out])
+                with open(out, 'rb') as f:
+                    W_, H_, frames = decode_png(f.read())
+            except AssertionError as e:
+                bad.append(('invalid PNG: %s' % e, desc))
+                continue
+            except (Exception, SystemExit) as e:
+                bad.append(('exception %r' % (e,), desc))
+                continue
+            n += 1
+            arr = []
+            for r in range(y, min(24, y + h)):
+                arr.append([_RefTile(mem[22528 + 32 * r + c], [mem[16384 + 2048 * (r // 8) + 32 * (r % 8) + c + 256 * j] for j in range(8)]) for c in range(x, min(32, x + w))])
+            if invert:
+                for row in arr:
+                    for t in row:
+                        if t.attr & 128:
+                            t.data = [b ^ 255 for b in t.data]
+                            t.attr &= 127
+            tiles = _tiles_from_grid(_ref_flip_rotate(_tile_grid(arr), flip, rot))
+            iw = ImageWriter({'PNGEnableAnimation': 1 if anim else 0})
+            colours = [c[1] for c in iw.get_default_colours()] if hasattr(iw, 'get_default_colours') else None
+            if colours is None:
+                return n, bad
+            EW, EH = len(tiles[0]) * 8 * scale, len(tiles) * 8 * scale
+            rgb = lambda rows: [[tuple(colours[c]) for c in row] for row in rows]
+            exp = rgb(render(tiles, scale, 0, 0, 0, EW, EH, iw))
+            if (W_, H_) != (EW, EH):
+                bad.append(('size %s != %s' % ((W_, H_), (EW, EH)), desc))
+                continue
+            got = [[tuple(px[0]) for px in row] for row in frames[0][1]]
+            if got != exp:
+                yy = next(i for i in range(EH) if got[i] != exp[i])
+                xx = next(i for i in range(EW) if got[yy][i] != exp[yy][i])
+                bad.append(('pixel (%d,%d) is %s, display rules give %s' % (xx, yy, got[yy][xx], exp[yy][xx]), desc))
+                continue
+            full2 = rgb(render(tiles, scale, 0, 0, 0, EW, EH, iw, flash=True))
+            if len(frames) > 1:
+                (fx, fy, fw, fh), rows2 = frames[1]
+                got2 = [[tuple(px[0]) for px in row] for row in rows2]
+                exp2 = [r_[fx:fx + fw] for r_ in full2[fy:fy + fh]]
+                if not anim:
+                    bad.append(('a second frame although -n was given', desc))
+                elif got2 != exp2:
+                    bad.append(('flash frame differs inside its rectangle %s' % ((fx, fy, fw, fh),), desc))
+                elif any(full2[yy][xx] != exp[yy][xx] for yy in range(EH) for xx in range(EW) if not (fx <= xx < fx + fw and fy <= yy < fy + fh)):
+                    bad.append(('a pixel flashes outside the second frame rectangle %s' % ((fx, fy, fw, fh),), desc))
+            elif anim and full2 != exp:
+                bad.append(('flashing cells but a single frame', desc))
+            if len(bad) > 4:
+                break
+    finally:
+        shutil.rmtree(tmp, ignore_errors=True)
+    return n, bad
 
 
 # ------------------------------------------------------------------ E (small scope): every specialised encoder against the generic one
